@@ -313,7 +313,7 @@ def run_script(prog, cmds):
     replies = prog.run([cmd_line(c) for c in cmds])
     events, problem = [], None
     for i, cmd in enumerate(cmds):
-        if i >= len(replies) or replies[i].get('cmd') in ('CRASH', 'TIMEOUT', 'UNPARSABLE', 'quit'):
+        if i >= len(replies) or replies[i].get('cmd') in ('CRASH', 'TIMEOUT', 'UNPARSABLE', 'quit', 'STUCK'):
             problem = replies[min(i, len(replies) - 1)]
             break
         if not replies[i].get('quiet', True):
